@@ -19,7 +19,7 @@ use llguidance::Matcher;
 pub fn gen_case(rng: &mut Rng, idx: usize, thorough: bool) -> Value {
     let (g, texts) = eng::gen_grammar(rng, idx);
     json!({"grammar": g.to_json(), "texts": texts.iter().map(|t| crate::vocab::hex(t)).collect::<Vec<_>>(),
-           "vocab_kind": idx % 3, "canonical": idx % 4 == 3, "seed": rng.next() % 1_000_000_000, "steps": if thorough { 40 } else { 22 }})
+           "vocab_kind": (idx + idx / 3) % 3, "canonical": idx % 4 == 3, "seed": rng.next() % 1_000_000_000, "steps": if thorough { 40 } else { 22 }})
 }
 
 fn key_str(st: &VerifState) -> String {
@@ -107,7 +107,10 @@ pub fn world_of(case: &Value, rng: &mut Rng) -> Option<(Gram, World)> {
     let g = Gram::from_json(&case["grammar"]);
     let texts: Vec<Vec<u8>> = case["texts"].as_array().map(|a| a.iter().map(|t| crate::vocab::unhex(t.as_str().unwrap())).collect()).unwrap_or_default();
     let canonical = case["canonical"].as_bool().unwrap_or(false);
-    let w = eng::build_world(rng, &texts, canonical, None, case["vocab_kind"].as_u64().unwrap_or(0) as usize).ok()?;
+    // "slices": true builds the factory with the default JSON slices (the slicer path of the mask computation)
+    let sl = llguidance::earley::SlicedBiasComputer::general_slices();
+    let slices = if case["slices"].as_bool().unwrap_or(false) { Some(&sl[..]) } else { None };
+    let w = eng::build_world(rng, &texts, canonical, slices, case["vocab_kind"].as_u64().unwrap_or(0) as usize).ok()?;
     Some((g, w))
 }
 
